@@ -67,7 +67,9 @@ CallRules(s, acc, k) ==
       v9 == IF stall >= 2 THEN {<<k, "D9-no-progress-on-two-consecutive-calls">>} ELSE {}
       \* D4: END is absorbing
       v4 == IF acc.ended /\ (c.c # 0 \/ c.p # 0 \/ c.st # "END") THEN {<<k, "D4-call-after-END-had-an-effect">>} ELSE {}
-  IN [produced |-> produced, consumed |-> consumed, given |-> given, pending |-> c.ai - c.c, viol |-> acc.viol \cup v1 \cup v3 \cup v4 \cup v6 \cup v9,
+      \* D11: installing a Huffman table is refused while a block is open (attempted after the call; 99 = not attempted)
+      v11 == IF c.sh = 0 /\ c.st # "NEW_HDR" THEN {<<k, "D11-set_hufftables-accepted-while-a-block-is-open">>} ELSE {}
+  IN [produced |-> produced, consumed |-> consumed, given |-> given, pending |-> c.ai - c.c, viol |-> acc.viol \cup v1 \cup v3 \cup v4 \cup v6 \cup v9 \cup v11,
       dec |-> IF flushDone /\ pd.ok /\ pd.d.tag = "NeedMore" THEN [kind |-> "state", st |-> pd.d.st, hend |-> pd.hend] ELSE acc.dec,
       stall |-> stall, fullPoints |-> fullPoints, ended |-> acc.ended \/ c.st = "END", flushJudged |-> acc.flushJudged + (IF flushDone THEN 1 ELSE 0),
       eosSeen |-> acc.eosSeen \/ c.eos = 1]
